@@ -152,7 +152,7 @@ func (w *World) loadContractFile(path string) error {
 		switch kw {
 		case "func":
 			name := strings.TrimSpace(rest)
-			if !strings.Contains(name, ".") || strings.HasPrefix(name, "(") {
+			if !strings.Contains(name, ".") || strings.HasPrefix(name, "(") || (name[0] >= 'A' && name[0] <= 'Z') {
 				name = pkgShort + "." + name
 			}
 			cur = w.Contracts[name]
